@@ -1,6 +1,6 @@
 #!/usr/bin/env python3
 """Apply a patch (or python-style replacement) to a scratch copy of /repo/jedi and run checks there.
-usage: tools/try_patch.py <patch.diff | file:::old:::new> PROP [PROP...]
+usage: tools/try_patch.py <patch.diff | file§§§old§§§new> PROP [PROP...]
 The scratch copy lives in a fresh temp dir outside /repo and /verif and is removed afterwards."""
 import os, shutil, subprocess, sys, tempfile
 HERE = os.path.dirname(os.path.dirname(os.path.abspath(__file__)))
@@ -10,8 +10,8 @@ tmp = tempfile.mkdtemp(prefix='jedi_scratch_', dir='/var/tmp')
 try:
     shutil.copytree('/repo/jedi', os.path.join(tmp, 'jedi'))
     shutil.copytree('/repo/test', os.path.join(tmp, 'test')) if False else None
-    if ':::' in spec:
-        f, old, new = spec.split(':::')
+    if '§§§' in spec:
+        f, old, new = spec.split('§§§')
         p = os.path.join(tmp, f)
         s = open(p).read()
         assert old in s, 'pattern not found'
